@@ -19,9 +19,22 @@ def perform(run, action, prev_state, new_state):
     action = ALIASES.get(action, action)
     if action == 'RunHandle':
         want = prev_state['ready'][0]
+        before = want == 'task' or None
         got = run.run_handle()
         if got != want:
             return 'specification runs handle %r, implementation has %r' % (want, got)
+        if before is not None:
+            # Where the stepping coroutine yields to the loop is an implementation choice no property fixes: while the
+            # implementation is merely BEHIND the specification's step (its event log is a proper prefix of the expected
+            # one) and its next callback belongs to the stepping task, let the task run on (bounded).  A genuine lack of
+            # progress or a different event still shows in the comparison that follows.
+            extra = 0
+            while extra < 4 and run.next_kind() == 'task':
+                wlog, glog = _logs(run, new_state)
+                if not (len(glog) < len(wlog) and wlog[:len(glog)] == glog):
+                    break
+                run.run_handle()
+                extra += 1
         return None
     if action in ('EnvRpc', 'EnvBcast'):
         if len(params) == 1:           # FRpc(<<intent, text>>)
@@ -55,6 +68,17 @@ def split_action(label):
     return name, tlaval.parse('<<' + rest[:-1] + '>>')
 
 
+def _logs(run, state):
+    """(expected, observed) event logs, both normalised"""
+    # control calls made by the RPC reply task are internal: their effect and their reply are what is observed
+    wlog = [e for e in core_real.norm(state['S']['log']) if not (e[0] == 'call' and e[5] == 'rpc')]
+    glog = core_real.norm(run.log)
+    if not run.use_listener:           # checkpoint runs carry no listener (listeners would be deep-copied into the bundle)
+        wlog = [e for e in wlog if e[0] != 'notify']
+        glog = [e for e in glog if e[0] != 'notify']
+    return wlog, glog
+
+
 def compare(run, state, fields=None):
     """Public projection and event log of the implementation against the specification state."""
     want = core_real.project_model(state['S'])
@@ -67,12 +91,7 @@ def compare(run, state, fields=None):
             continue
         if want[k] != got[k]:
             diffs.append((k, want[k], got[k]))
-    # control calls made by the RPC reply task are internal: their effect and their reply are what is observed
-    wlog = [e for e in core_real.norm(state['S']['log']) if not (e[0] == 'call' and e[5] == 'rpc')]
-    glog = core_real.norm(run.log)
-    if not run.use_listener:           # checkpoint runs carry no listener (listeners would be deep-copied into the bundle)
-        wlog = [e for e in wlog if e[0] != 'notify']
-        glog = [e for e in glog if e[0] != 'notify']
+    wlog, glog = _logs(run, state)
     if wlog != glog:
         n = 0
         while n < min(len(wlog), len(glog)) and wlog[n] == glog[n]:
@@ -97,6 +116,12 @@ def replay_path(progs, plans, nodes, init, path, run_kw=None):
         err = perform(run, action, prev, st)
         if err:
             return {'at': i + 1, 'action': action, 'diffs': [('handle', err, None)]}
+        # a trailing yield: the specification's task is suspended (or done) while the implementation's still has a callback
+        # queued; running it must not change anything observable (the comparison that follows checks that)
+        extra = 0
+        while extra < 3 and 'task' not in st['ready'] and run.next_kind() == 'task':
+            run.run_handle()
+            extra += 1
         d = compare(run, st)
         if d:
             return {'at': i + 1, 'action': action, 'diffs': d}
